@@ -113,13 +113,21 @@ var c10Failing = []string{
 	`for zi = 2 {zz_boom(zi)}`,
 	`for zi = 2 {for zj = 1:3 {zz_boom2(zi, zj)}}`,
 	`zz_boom2(1, 2)`,
+	// calls refused by an extension for one of their arguments
+	`image.draw("zimg", [1, 2])`, `image.draw("zimg", [300, 0, 0])`, `image.draw_hsl("zimg", [1])`, `image.draw_ycbcr("zimg", [1, 2, 3, 4, 5])`, `(() => image.draw("zimg", "red"))()`,
+	`image.line_to("zimg", "x", 1)`, `image.move_to("zimg_none", 1, 1)`, `image.add("zimg", "zimg_none")`, `image.set("zimg", 1, 1, [1])`, `image.quad_to("zimg", 1, 1, 2)`, `image.draw("zimg", [1, 2, verif_panic()])`,
 	// a Go runtime error (not a string panic) raised inside a call whose parameters must not stay visible afterwards
 	`((zsecret, zn) => verif_rtpanic())("s3", 1)`,
 	`(zsecret => { for zi = 2 { (zs2 => verif_rtpanic())(zi) } })("s4")`,
 }
 
 // c10Setup are succeeding inputs every random session starts with.
-var c10Setup = []string{`func zz_boom(n) {zz_boom(n + 1)}`, `func zz_boom2(a, b) {zz_boom2(a + 1, b)}`}
+var c10Setup = []string{`func zz_boom(n) {zz_boom(n + 1)}`, `func zz_boom2(a, b) {zz_boom2(a + 1, b)}`,
+	// an image with an unfinished path: state held by an extension, which a refused call must leave alone too
+	`image.new("zimg", 8, 8); image.move_to("zimg", 1, 1); image.line_to("zimg", 6, 1); image.line_to("zimg", 6, 6); 0`}
+
+// c10ImageProbe finishes the path, draws it and reads the picture back.
+const c10ImageProbe = `image.line_to("zimg", 1, 6); image.close_path("zimg"); image.draw("zimg", [255, 0, 0]); image.png("zimg")`
 
 func c10IsDeadline(s string) bool {
 	return strings.Contains(s, "for true {}") || s == "zz_outer(3000000)" || s == "zz_safe(3000000)"
@@ -287,7 +295,7 @@ func (p c10) RunBatch(c *fw.Ctx) {
 			failing = append(failing, false)
 		}
 		// always end with observations that exercise output, loops, calls and depth
-		for _, obs := range []string{`println("still", "here")`, `for zq = 3 {print(zq)}`, `for q1 = 1 {for q2 = 1 {for q3 = 1 {for q4 = 1 {for q5 = 1 {for q6 = 1 {for q7 = 1 {for q8 = 1 {print(q8)}}}}}}}}`, `[catch(q1).err, catch(q4).err, catch(q8).err]`, `[catch(zsecret).err, catch(zn).err, catch(zs2).err]`, fmt.Sprintf(`func zz_d(n) {if n <= 0 {return 0}; 1 + zz_d(n - 1)}; zz_d(%d)`, maxRec)} {
+		for _, obs := range []string{`println("still", "here")`, `for zq = 3 {print(zq)}`, `for q1 = 1 {for q2 = 1 {for q3 = 1 {for q4 = 1 {for q5 = 1 {for q6 = 1 {for q7 = 1 {for q8 = 1 {print(q8)}}}}}}}}`, `[catch(q1).err, catch(q4).err, catch(q8).err]`, `[catch(zsecret).err, catch(zn).err, catch(zs2).err]`, c10ImageProbe, fmt.Sprintf(`func zz_d(n) {if n <= 0 {return 0}; 1 + zz_d(n - 1)}; zz_d(%d)`, maxRec)} {
 			plus = append(plus, obs)
 			failing = append(failing, false)
 		}
